@@ -1415,7 +1415,7 @@ where
 }
 
 /// `join` where each side learns whether it was stolen.
-pub(crate) fn join_context<A, B, RA, RB>(a: A, b: B) -> (RA, RB)
+pub(crate) fn join_context_raw<A, B, RA, RB>(a: A, b: B) -> (RA, RB)
 where
     A: FnOnce(bool) -> RA + Send,
     B: FnOnce(bool) -> RB + Send,
@@ -1430,7 +1430,7 @@ where
         }
         Some((sim, me)) => {
             if me == DRIVER {
-                sim.clone().in_worker_cold(move || join_context(a, b))
+                sim.clone().in_worker_cold(move || join_context_raw(a, b))
             } else {
                 sim.join_impl(me, a, b)
             }
@@ -1445,7 +1445,17 @@ where
     RA: Send,
     RB: Send,
 {
-    join_context(move |_| a(), move |_| b())
+    join_context_raw(move |_| a(), move |_| b())
+}
+
+pub fn join_context<A, B, RA, RB>(a: A, b: B) -> (RA, RB)
+where
+    A: FnOnce(FnContext) -> RA + Send,
+    B: FnOnce(FnContext) -> RB + Send,
+    RA: Send,
+    RB: Send,
+{
+    join_context_raw(move |m| a(FnContext { migrated: m }), move |m| b(FnContext { migrated: m }))
 }
 
 pub fn current_num_threads() -> usize {
@@ -1455,6 +1465,77 @@ pub fn current_num_threads() -> usize {
             g.cfg.pool_sizes[g.active].max(1)
         }
         None => 1,
+    }
+}
+
+/// Does the calling worker have jobs of its own that nobody has stolen yet?
+pub fn current_thread_has_pending_tasks() -> Option<bool> {
+    match current() {
+        Some((sim, me)) if me != DRIVER => {
+            let g = sim.lock();
+            Some(!g.pools[g.active].workers[me].deque.is_empty())
+        }
+        _ => None,
+    }
+}
+
+pub fn max_num_threads() -> usize {
+    1 << 16
+}
+
+#[derive(Clone, Copy, Debug, PartialEq, Eq)]
+pub enum Yield {
+    Executed,
+    Idle,
+}
+
+/// Cooperative yield: in the simulation a scheduling point at which any other
+/// runnable thread may be chosen; one pending job of this worker is run if there is one.
+pub fn yield_now() -> Option<Yield> {
+    match current() {
+        Some((sim, me)) if me != DRIVER => {
+            sim.yield_point(me, YieldKind::Shared);
+            match sim.find_work(me, true) {
+                Some(j) => {
+                    sim.execute(me, j);
+                    Some(Yield::Executed)
+                }
+                None => Some(Yield::Idle),
+            }
+        }
+        _ => None,
+    }
+}
+
+pub fn yield_local() -> Option<Yield> {
+    match current() {
+        Some((sim, me)) if me != DRIVER => {
+            sim.yield_point(me, YieldKind::Shared);
+            let j = {
+                let mut g = sim.lock();
+                let a = g.active;
+                g.pools[a].workers[me].deque.pop_back()
+            };
+            match j {
+                Some(j) => {
+                    sim.execute(me, j);
+                    Some(Yield::Executed)
+                }
+                None => Some(Yield::Idle),
+            }
+        }
+        _ => None,
+    }
+}
+
+/// Context handed to the closures of the public `join_context`.
+#[derive(Clone, Copy, Debug)]
+pub struct FnContext {
+    migrated: bool,
+}
+impl FnContext {
+    pub fn migrated(&self) -> bool {
+        self.migrated
     }
 }
 
@@ -1608,6 +1689,25 @@ where
 }
 
 pub fn scope_fifo<'scope, OP, R>(op: OP) -> R
+where
+    OP: FnOnce(&Scope<'scope>) -> R + Send,
+    R: Send,
+{
+    scope(op)
+}
+
+/// Like `scope`, but the body runs on the calling thread. In the model the body
+/// of a scope always runs where the caller is once inside a pool, and an outside
+/// caller is represented by the worker that took the injected job.
+pub fn in_place_scope<'scope, OP, R>(op: OP) -> R
+where
+    OP: FnOnce(&Scope<'scope>) -> R + Send,
+    R: Send,
+{
+    scope(op)
+}
+
+pub fn in_place_scope_fifo<'scope, OP, R>(op: OP) -> R
 where
     OP: FnOnce(&Scope<'scope>) -> R + Send,
     R: Send,
